@@ -1,11 +1,258 @@
-"""C19 — rules not implemented yet (fail closed)."""
-EXPLANATION = "not implemented"
-NOT_DECIDED = "everything"
+"""C19 — plot calls do not modify their inputs; per-layer options override call options."""
+from __future__ import annotations
+
+import ast
+
+from ..origin import OriginAnalysis
+from ..peval import Evaluator, Model, Unsupported, RaisedInModel
+from ..source import norm, const_value, walk_no_nested, FuncInfo
+from .common import is_name, params, returns_of, calls_in, bind_call
+
+EXPLANATION = (
+    "Static rules: (R1) interprocedural provenance analysis (D3) from each of map, histogram1d, histogram2d, scatter and plot "
+    "through every resolved callee (parse_layer, Layer.copy/__init__, get_norm, get_direction, VectorBasis, normalize, "
+    "_add_scatter, render and every public function of plot/wrappers.py): no attribute/subscript store, del, in-place "
+    "operator or mutating method call reaches an object that may alias something passed by the caller (ax/fig and the "
+    "matplotlib norm autoscaling in wrappers.streamplot are named exemptions); (R2) precedence: parse_layer and "
+    "Layer.update are evaluated over all combinations layer-value in {unset, falsy, set} x call-value in {unset, set} for "
+    "the seven option fields and the extra keyword options: the layer value wins unless it is None, the input layer is not "
+    "modified and the result is a distinct object; every entry point forwards each call-level option under its own name and "
+    "builds the norm from the merged layer fields; (R3) no module-level mutable state of plot/ or core/layer.py is written; "
+    "(R4) an option that is forwarded to parse_layer has no other use in the entry point (after the merge the function "
+    "must read the merged layer).")
+NOT_DECIDED = "what matplotlib draws; equality of the returned data as numbers (follows from R1/R3 + determinism of the kernels)"
+TRUSTED = ("CPython ast", "catalogue of mutating methods (sa/origin.py)", "library objects' non-catalogued methods do not "
+           "mutate their receiver", "a fresh abstract object may summarise several concrete objects of one allocation site")
+TECHNIQUE = ("static analysis: interprocedural, flow- and field-sensitive provenance (may-alias-a-parameter) analysis over the "
+             "resolved call graph; finite-case evaluation of the option-merging code")
+
+ENTRIES = ["plot/map.py::map", "plot/histogram1d.py::histogram1d", "plot/histogram2d.py::histogram2d",
+           "plot/scatter.py::scatter", "plot/plot.py::plot"]
+# one named symbol each, with the reason
+EXEMPT_SITES = {
+    ("plot/wrappers.py::streamplot", "default_args['norm'].vmin = default_args['color'].min()"):
+        "matplotlib norm object: autoscaled exactly as matplotlib itself does when vmin is None",
+    ("plot/wrappers.py::streamplot", "default_args['norm'].vmax = default_args['color'].max()"):
+        "matplotlib norm object: autoscaled exactly as matplotlib itself does when vmax is None",
+}
+OPTION_FIELDS = ["mode", "operation", "norm", "vmin", "vmax", "bins", "weights"]
 
 
-def not_implemented(run, tree):
-    run.rule("C19.R0", "stub")
-    run.unresolved("stub", "", "rules for C19 are not implemented yet")
+def r1_immutability(run, tree):
+    run.rule("C19.R1", "argument immutability from the five plot entry points", "D3 provenance, interprocedural", "",
+             floor=5)
+    for q in ENTRIES:
+        fi = tree.func(q)
+        an = OriginAnalysis(tree, exempt_params=("ax", "fig"), exempt_sites=EXEMPT_SITES)
+        findings = an.analyse_entry(fi)
+        run.analysed(fi)
+        for fq in an.functions_seen:
+            run.functions.add(fq)
+        run.call_sites += an.call_sites
+        for f in findings:
+            run.violated("%s::%s::%s" % (f.fi.qual, f.what, norm(f.node)[:120]), f.fi.where(f.node),
+                         "reached from %s via %s: the statement stores through / mutates an object that may alias the "
+                         "caller's argument(s) %s" % (q, " -> ".join(c.split("::")[1] for c in f.chain), f.params),
+                         "the caller's %s is different after the call; a second call sharing the object sees the leftovers" % (
+                             ", ".join(f.params)))
+        run.holds("%s::no-store-through-arguments" % q, fi.where(),
+                  "%d functions, %d call sites analysed, %d mutation sites on caller-owned objects" % (
+                      len(an.functions_seen), an.call_sites, len(findings))) if not findings else None
+    run.assume("exempt: ax, fig (drawing targets by contract); wrappers.streamplot autoscaling of a matplotlib norm object")
 
 
-RULES = [not_implemented]
+# ------------------------------------------------------------------------------------------ R2 precedence
+class LayerModel(Model):
+    def __init__(self, fields, kwargs, key="k"):
+        for k, v in fields.items():
+            setattr(self, k, v)
+        self.kwargs = dict(kwargs)
+        self.key = key
+        self.arrays = {key: "DATA"}
+        self.copies = 0
+
+    def copy(self):
+        c = LayerModel({f: getattr(self, f) for f in OPTION_FIELDS}, self.kwargs, self.key)
+        c.arrays = dict(self.arrays)
+        c.is_copy_of = self
+        return c
+
+    @property
+    def data(self):
+        return self.arrays[self.key]
+
+
+class PrecEval(Evaluator):
+    def __init__(self, tree, fi, env):
+        super().__init__(env)
+        self.tree, self.fi = tree, fi
+
+    def ev_Name(self, node):
+        if node.id in self.env:
+            return self.env[node.id]
+        if node.id in ("None", "True", "False"):
+            return {"None": None, "True": True, "False": False}[node.id]
+        raise Unsupported("name %s" % node.id)
+
+    def call(self, node, func, args, kwargs):
+        if callable(func):
+            try:
+                return func(*args, **kwargs)
+            except TypeError as e:
+                raise Unsupported(str(e))
+        raise Unsupported("call %s" % norm(node.func))
+
+
+def check_merge(run, tree, qual, in_place):
+    fi = tree.func(qual)
+    run.analysed(fi)
+    pn = params(fi)
+    bad = {}
+    n_cases = 0
+    for lv_name, lv in (("unset", None), ("falsy (0)", 0), ("set", "L")):
+        for cv_name, cv in (("unset", None), ("set", "C")):
+            layer = LayerModel({f: lv for f in OPTION_FIELDS}, {"a": "L"})
+            env = {}
+            ev = PrecEval(tree, fi, env)
+            kwargs = {f: cv for f in OPTION_FIELDS}
+            kwargs.update({"a": "C", "b": "C"})
+            try:
+                out = ev.run_function(fi.node, [layer], kwargs_for(fi, kwargs))
+            except (Unsupported, RaisedInModel) as e:
+                run.unresolved("%s::merge" % qual, fi.where(), "cannot evaluate the merge: %s" % e)
+                return
+            target = layer if in_place else out
+            n_cases += 1
+            if not isinstance(target, LayerModel):
+                bad.setdefault("result", []).append("returns %r" % (target,))
+                continue
+            for f in OPTION_FIELDS:
+                want = lv if lv is not None else cv
+                got = getattr(target, f, "<missing>")
+                if got != want or (got is None) != (want is None):
+                    bad.setdefault(f, []).append("layer %s / call %s -> %r (required %r)" % (lv_name, cv_name, got, want))
+            if target.kwargs != {"a": "L", "b": "C"}:
+                bad.setdefault("kwargs", []).append("extra options merged to %r (required {'a': 'L', 'b': 'C'})" % target.kwargs)
+            if not in_place:
+                if out is layer:
+                    bad.setdefault("copy", []).append("the input layer itself is returned")
+                if any(getattr(layer, f) != lv for f in OPTION_FIELDS) or layer.kwargs != {"a": "L"}:
+                    bad.setdefault("input", []).append("the input layer was modified")
+    for f in OPTION_FIELDS + ["kwargs"] + ([] if in_place else ["copy", "input"]):
+        run.ob("%s::precedence[%s]" % (qual, f), f not in bad, fi.where(),
+               "; ".join(bad.get(f, [])[:3]) or "layer value wins unless None, in all %d combinations" % n_cases,
+               "a Layer that sets %s (e.g. to 0) is overridden by the call-level value, or the caller's Layer is changed" % f)
+
+
+def kwargs_for(fi, kwargs):
+    """Split the test keyword arguments into named parameters and the **kwargs dict of fi."""
+    a = fi.node.args
+    names = {x.arg for x in a.args + a.kwonlyargs}
+    out = {k: v for k, v in kwargs.items() if k in names}
+    if a.kwarg is not None:
+        out[a.kwarg.arg] = {k: v for k, v in kwargs.items() if k not in names}
+    return out
+
+
+def r2_precedence(run, tree):
+    run.rule("C19.R2", "precedence: layer-level options win; call-level options forwarded under their own names",
+             "D7 finite cases + sibling agreement", "", floor=20)
+    check_merge(run, tree, "plot/parser.py::parse_layer", in_place=False)
+    check_merge(run, tree, "core/layer.py::Layer.update", in_place=True)
+    # forwarding at the call sites
+    pl = tree.func("plot/parser.py::parse_layer")
+    for q in ENTRIES[:3]:
+        fi = tree.func(q)
+        fparams = {a.arg for a in fi.node.args.args + fi.node.args.kwonlyargs}
+        sites = [c for c in calls_in(fi.node) if isinstance(tree.resolve_call(fi, c), FuncInfo) and
+                 tree.resolve_call(fi, c).qual == pl.qual]
+        if not sites:
+            run.violated("%s::parse_layer-call" % q, fi.where(), "the entry point no longer merges options with parse_layer",
+                         "layer-level options are ignored")
+            continue
+        for c in sites:
+            wrong = [(k.arg, norm(k.value)) for k in c.keywords if k.arg in OPTION_FIELDS and not is_name(k.value, k.arg)]
+            fwd_kwargs = any(k.arg is None for k in c.keywords) if fi.node.args.kwarg is not None else True
+            missing = [o for o in OPTION_FIELDS if o in fparams and o not in {k.arg for k in c.keywords}]
+            run.ob("%s::parse_layer-call::forwarding" % q, not wrong and fwd_kwargs and not missing, fi.where(c),
+                   "mis-forwarded: %s; not forwarded: %s; **kwargs forwarded: %s" % (wrong or "none", missing or "none", fwd_kwargs),
+                   "the call-level vmin is used as vmax (or an option never reaches the layers)")
+            # the result replaces the layer variable that is used afterwards
+        # norm built from the merged layer
+        gn = [c for c in calls_in(fi.node) if isinstance(tree.resolve_call(fi, c), FuncInfo) and
+              tree.resolve_call(fi, c).qual == "plot/parser.py::get_norm"]
+        for c in gn:
+            kws = {k.arg: norm(k.value) for k in c.keywords}
+            ok = all(kws.get(f, "").endswith("." + f) and not kws.get(f, "").startswith(("self.",)) for f in ("norm", "vmin", "vmax"))
+            roots = {kws.get(f, "").split(".")[0] for f in ("norm", "vmin", "vmax")}
+            run.ob("%s::get_norm-from-merged-layer" % q, ok and len(roots) == 1, fi.where(c), "get_norm(%s)" % kws,
+                   "the colour norm ignores the layer's own vmin/vmax/norm")
+    # get_norm passes vmin/vmax straight through in every branch
+    g = tree.func("plot/parser.py::get_norm")
+    run.analysed(g)
+    for c in calls_in(g.node):
+        d = tree.dotted(g.module, c.func)
+        if d and d.startswith("matplotlib.colors."):
+            kws = {k.arg: norm(k.value) for k in c.keywords}
+            run.ob("plot/parser.py::get_norm::%s" % d.split(".")[-1], kws.get("vmin") == "vmin" and kws.get("vmax") == "vmax",
+                   g.where(c), "%s(%s)" % (d.split(".")[-1], kws), "vmin and vmax swapped or dropped for one norm type")
+
+
+def r3_hidden_state(run, tree):
+    run.rule("C19.R3", "no hidden state: no module-level mutable object of plot/ or core/layer.py is written", "effect rule", "",
+             floor=1)
+    n = 0
+    for mi in tree.modules.values():
+        if not (mi.rel.startswith("plot/") or mi.rel in ("core/layer.py", "core/plot.py")):
+            continue
+        n += 1
+        for fi in list(mi.functions.values()) + [m for c in mi.classes.values() for m in c.methods.values()]:
+            for node in walk_no_nested(fi.node):
+                if isinstance(node, (ast.Global, ast.Nonlocal)):
+                    run.violated("%s::global-statement" % fi.qual, fi.where(node), "`%s`" % norm(node),
+                                 "a second identical call returns different data")
+        mutable_globals = [name for name, v in mi.assigns.items() if isinstance(v, (ast.Dict, ast.List, ast.Set, ast.ListComp))
+                           and name != "__all__"]
+        for g in mutable_globals:
+            written = False
+            for fi in tree.all_functions():
+                for node in walk_no_nested(fi.node):
+                    if isinstance(node, (ast.Subscript, ast.Attribute)) and isinstance(node.ctx, (ast.Store, ast.Del)) and \
+                            isinstance(node.value, ast.Name) and node.value.id == g and fi.module.rel == mi.rel:
+                        written = True
+                    if isinstance(node, ast.Call) and isinstance(node.func, ast.Attribute) and is_name(node.func.value, g) and \
+                            fi.module.rel == mi.rel and node.func.attr in ("append", "update", "pop", "clear", "setdefault", "extend"):
+                        written = True
+            run.ob("%s::module-level-mutable[%s]" % (mi.rel, g), not written, "src/osyris/" + mi.rel,
+                   "module-level %s is %s" % (g, "written by a function" if written else "never written"),
+                   "results depend on earlier calls")
+    run.holds("plot/*::no-global-statements", "src/osyris/plot", "%d modules scanned" % n, nontrivial=False)
+
+
+def r4_no_bypass(run, tree):
+    run.rule("C19.R4", "merged options are not bypassed", "def-use rule", "", floor=12)
+    pl = tree.func("plot/parser.py::parse_layer")
+    for q in ENTRIES[:3]:
+        fi = tree.func(q)
+        fparams = {a.arg for a in fi.node.args.args + fi.node.args.kwonlyargs}
+        sites = [c for c in calls_in(fi.node) if isinstance(tree.resolve_call(fi, c), FuncInfo) and
+                 tree.resolve_call(fi, c).qual == pl.qual]
+        forwarded = set()
+        inside = set()
+        for c in sites:
+            for k in c.keywords:
+                if k.arg in OPTION_FIELDS and isinstance(k.value, ast.Name) and k.value.id in fparams:
+                    forwarded.add(k.value.id)
+            for n in ast.walk(c):
+                inside.add(id(n))
+        for opt in sorted(forwarded):
+            uses = [n for n in walk_no_nested(fi.node) if isinstance(n, ast.Name) and n.id == opt and
+                    isinstance(n.ctx, ast.Load) and id(n) not in inside]
+            run.ob("%s::option[%s]::only-through-merged-layer" % (q, opt), not uses, fi.where(uses[0]) if uses else fi.where(),
+                   "call-level `%s` is %s" % (opt, "also read directly at line(s) %s" % sorted({u.lineno for u in uses}) if uses
+                                              else "read only by parse_layer"),
+                   "a Layer that sets %s is processed with the call-level value instead (e.g. a thick map reduces a layer "
+                   "with operation='mean' using the default 'sum')" % opt)
+
+
+RULES = [r1_immutability, r2_precedence, r3_hidden_state, r4_no_bypass]
